@@ -148,7 +148,7 @@ def compare_api(osrc, tsrc):
     direction = "accepts non-member" if got else "rejects member"
     lo, lt = localize(o, t, direction)
     return "fail", exp, {
-        "key": f"api|{direction}|{ctor(lt)}|{detail(lo, lt)}",
+        "key": f"api|{direction}|{'tuple-star' if '*tuple[' in tsrc else ctor(lt)}|{detail(lo, lt)}",
         "what": f"is_assignable({osrc}, {tsrc}) = {got}, membership model says {exp} "
                 f"(innermost component: {lo!r} vs {lt!r})",
         "case": {"route": "api", "obj": osrc, "type": tsrc},
@@ -225,12 +225,49 @@ def compare_program(pairs, checker, col=None):
                 continue
             direction = "rejects member" if diag else "accepts non-member"
             fails.append({
-                "key": f"prog-{route}|{direction}|{ctor(t)}|{detail(o, t)}",
+                "key": f"prog-{route}|{direction}|{'tuple-star' if '*tuple[' in tsrc else ctor(t)}|{detail(o, t)}",
                 "what": f"`{'x: ' + tsrc + ' = ' + osrc if route == 'assign' else 'takes(' + osrc + ')  # p: ' + tsrc}` "
                         f"is {'diagnosed' if diag else 'not diagnosed'}, membership model says member={exp}",
                 "case": {"route": "program", "obj": osrc, "type": tsrc},
             })
     return fails
+
+
+def is_literal_src(src):
+    """True if pyanalyze sees the expression as a literal / display of literals."""
+    import ast
+
+    try:
+        tree = ast.parse(src, mode="eval")
+    except SyntaxError:
+        return False
+    for n in ast.walk(tree):
+        if isinstance(n, (ast.Expression, ast.Constant, ast.Tuple, ast.List, ast.Set, ast.Dict,
+                          ast.UnaryOp, ast.USub, ast.Load, ast.BinOp, ast.Pow)):
+            continue
+        if isinstance(n, ast.Attribute) and isinstance(n.value, ast.Name) and n.value.id in ("E", "IE"):
+            continue
+        if isinstance(n, ast.Name) and n.id in ("E", "IE", "int", "bool", "str", "float", "A", "B", "C",
+                                                "type", "object", "list", "D", "frozenset", "set"):
+            continue
+        if isinstance(n, ast.Call) and isinstance(n.func, ast.Name) and n.func.id in ("frozenset", "set"):
+            continue
+        return False
+    return True
+
+
+@st.composite
+def pair_strategy(draw):
+    """(object source, type source): half of the objects are witnesses / near-misses of the type."""
+    tsrc = draw(universe.type_strategy(3))
+    mode = draw(st.integers(0, 9))
+    if mode < 7:
+        ty = member.from_rt(universe.eval_type(tsrc))
+        objs = member.inhabitants(ty, 8) if mode < 4 else member.near_misses(ty, 8)
+        srcs = [x for x in (member.to_src(o) for o in objs) if x is not None]
+        if srcs:
+            return draw(st.sampled_from(srcs)), tsrc
+    return draw(universe.object_strategy()), tsrc
 
 
 # ----------------------------------------------------------------- shards
@@ -280,8 +317,9 @@ def run_shard(spec):
 
     if mode == "random":
         def make():
-            @given(universe.object_strategy(), universe.type_strategy(3))
-            def t(osrc, tsrc):
+            @given(pair_strategy())
+            def t(pair):
+                osrc, tsrc = pair
                 status, exp, failure = compare_api(osrc, tsrc)
                 if status == "skip":
                     col.skipped += 1
@@ -301,8 +339,7 @@ def run_shard(spec):
     types = all_types(spec["tier"])
 
     def make_p():
-        @given(st.lists(st.tuples(st.sampled_from(LITERAL_OBJS), st.sampled_from(types)),
-                        min_size=60, max_size=60))
+        @given(st.lists(pair_strategy().filter(lambda p: is_literal_src(p[0])), min_size=60, max_size=60))
         def t(pairs):
             fails = compare_program(pairs, checker, col)
             col.sample({"line": f"x: {pairs[0][1]} = {pairs[0][0]}"})
